@@ -392,7 +392,7 @@ def spec_dict(draw, with_count, max_attrs=3):
             lo = draw(st.integers(0, 2))
             d[":count"] = ["range", lo, lo + draw(st.integers(1, 3)), draw(st.sampled_from(PROBS))]
     for _ in range(draw(st.integers(0, max_attrs))):
-        d[draw(st.sampled_from(["a", "b", "c", "d", "e"]))] = draw(attr_spec())
+        d[draw(st.sampled_from(["a", "b", "c", "d", "e", "kind"]))] = draw(attr_spec())  # ("kind" is an ordinary attribute name)
     if draw(st.sampled_from([0, 0, 0, 1])):
         d[":factory"] = draw(st.sampled_from(["Obj", "DictWrapper"]))
     if draw(st.sampled_from([0, 0, 0, 0, 1])):
